@@ -35,6 +35,7 @@ func RegisterAll() {
 	run.Register(&c11{})
 	run.Register(&c12{})
 	run.Register(&c13{})
+	run.Register(&c14{})
 	run.Register(&c20{})
 }
 
